@@ -98,7 +98,7 @@ def run():
         g = c20.is_depth_guard(P, P.bodies[S + "::" + fn], comp) if comp else None
         expect((g[0] if g else None) == want, "depth-guard idiom: %s -> %s (got %s)" % (fn, want, g))
     # transparent helpers (rules/inline.py): functions missing from rules/known_fns.txt are spliced into their callers
-    expect(not any("inl_helper" in i for i in P.bodies) and len(P.hidden) == 3, "transparent helpers are hidden from iteration (%s)" % sorted(P.hidden))
+    expect(not any("inl_helper" in i for i in P.bodies) and sum(1 for h in P.hidden if "inl_helper" in h) == 3, "transparent helpers are hidden from iteration (%s)" % sorted(P.hidden))
     b = P.bodies[S + "::inl_caller"]
     expect(bool(pushes(b)), "spliced helper: the push inside inl_helper_push is a site of inl_caller")
     g = L.guard_edges(b, flag, True)
@@ -116,6 +116,11 @@ def run():
     comp = set(by.get(S + "::inl_rec", []))
     g = c20.is_depth_guard(P, P.bodies[S + "::inl_rec"], comp) if comp else None
     expect(bool(comp) and (g[0] if g else None) == "counter", "spliced closure-taking guard helper: inl_rec is a depth guard (got %s, comp %s)" % (g, sorted(comp)))
+    b = P.bodies[S + "::unk_closure_guarded"]
+    g = L.guard_edges(b, flag, True)
+    ps = b.call_blocks(lambda d: d.endswith("Vec::<T, A>::push"))
+    expect(bool(ps) and bool(g) and not L.dominated_by_cut(b, ps, g) and not any("unk_closure_guarded::{closure" in i for i in P.bodies),
+           "unknown closure: its push is projected onto the creating block (guarded there) and the closure is hidden")
     a = P.adts.get(S)
     expect(a is not None and [f["name"] for f in a["variants"][0]["fields"]] == ["v", "flag", "n", "depth"], "ADT facts: struct fields")
     expect(a is not None and a.get("auto", {}).get("send") is True, "auto-trait facts: S: Send")
